@@ -192,9 +192,32 @@ def run(tier, seed):
         key = sorted({k.split("/")[0] for k in m["missing"]} | {"+" + k.split("/")[0] for k in m["spurious"]})
         ctx.violation({"dt": m["dt"], "shape": m["shape"], "classes": ",".join(key)}, m["symptom"],
                       {"src": srcs[m["id"]], "input": cases[m["id"]], "expected": m["expected"], "observed": m["observed"], "other": m["other"]})
+    # class 11, conflicting repeat parameters: the sequences of O2ORepeat (trait level: two names, vars / update; member level), judged by Trace_C14's
+    # Cfl / Symptom -- a conflicting sequence must be rejected with a diagnostic, a sequence without conflict must not be rejected for its repeat
+    from checks import c14
+    rtrace, rsrc = [], {}
+    for lvl, cfg, cap in (("trait", "MC_C14_tq2", None), ("trait", "MC_C14_tq", 4000 if tier == "quick" else None), ("member", "MC_C14_mq", 4000 if tier == "quick" else None)):
+        rc = streams.tlc_cases(ctx, "MC_C14", cfg, cap, seed)
+        if lvl == "trait":
+            rc = [c for c in rc if all(sum(1 for p in t["own"] if p != "vars") <= 1 for t in c["ts"])]
+        rin = [{"id": i, "src": (c14.t_orig(c) if lvl == "trait" else c14.m_orig(c))} for i, c in enumerate(rc)]
+        for c, x, rr in zip(rc, rin, core.expand(rin, "syn1")):
+            r = rr["runs"][0]
+            rid = f"{cfg}:{x['id']}"
+            rsrc[rid] = (x["src"], r.get("msgs", []))
+            # only the verdict is judged here (the merged sets and the written-out form are C14's business)
+            rtrace.append({"id": rid, "lvl": lvl, "stream": lvl, "s": c["ts"] if lvl == "trait" else c["ms"], "v1": r["verdict"], "v2": r["verdict"], "same": True,
+                           "merged": [], "writable": False, "verdict_only": True})
+    rok, rmism, rst = core.judge("Trace_C14", rtrace, tag="c15-repeat", timeout=3000)
+    ctx.add_tlc(rst)
+    for m in rmism:
+        if m["symptom"] in ("conflict_accepted", "conflict_panics", "valid_repeat_rejected"):
+            ctx.violation({"dt": "struct", "shape": "named", "classes": "repeat_conflict", "level": m["lvl"]},
+                          "faulty_input_accepted" if m["symptom"] == "conflict_accepted" else m["symptom"], {"src": rsrc[m["id"]][0], "messages": rsrc[m["id"]][1]})
+    ctx.cov["repeat_conflict_sequences"] = len(rtrace)
     nf = sum(1 for t in trace if t["verdict"] == "err")
-    ctx.cov["evaluations"] = len(trace)
-    ctx.cov["traces_validated_against_impl"] = ok
+    ctx.cov["evaluations"] = len(trace) + len(rtrace)
+    ctx.cov["traces_validated_against_impl"] = ok + rok
     ctx.cov["rejected_runs"] = nf
     ctx.cov["panicking_runs_left_to_C16"] = sum(1 for t in trace if t["verdict"] == "panic")
     ctx.cov["accepted_runs"] = sum(1 for t in trace if t["verdict"] == "ok")
